@@ -103,10 +103,13 @@ func ParseTokenRevocationRequest(r *http.Request, revoker Revoker) (token, token
 			return "", "", "", oidc.ErrInvalidClient().WithDescription("auth_method private_key_jwt not supported")
 		}
 		profile, err := VerifyJWTAssertion(r.Context(), req.ClientAssertion, revokerJWTProfile.JWTProfileVerifier(r.Context()))
-		if err == nil {
-			return req.Token, req.TokenTypeHint, profile.Issuer, nil
+		if err != nil {
+			return "", "", "", err
 		}
-		return "", "", "", err
+		if err = checkPrivateKeyJWTClient(r.Context(), profile.Issuer, revoker.Storage()); err != nil {
+			return "", "", "", err
+		}
+		return req.Token, req.TokenTypeHint, profile.Issuer, nil
 	}
 	clientID, clientSecret, ok := r.BasicAuth()
 	if ok {
